@@ -309,23 +309,26 @@ impl<'l, Data> LoopHandle<'l, Data> {
 
     /// Removes this source from the event loop.
     pub fn remove(&self, token: RegistrationToken) {
-        if let Ok(&mut SourceEntry {
-            token: entry_token,
-            ref mut source,
-        }) = self.inner.sources.borrow_mut().get_mut(token.inner)
-        {
-            if let Some(source) = source.take() {
-                trace!(source = entry_token.get_id(), "Removing source");
-                if let Err(e) = source.unregister(
-                    &mut self.inner.poll.borrow_mut(),
-                    &mut self
-                        .inner
-                        .sources_with_additional_lifecycle_events
-                        .borrow_mut(),
-                    token,
-                ) {
-                    warn!("Failed to unregister source from the polling system: {e:?}");
-                }
+        // Take the source out of its slot first and release the borrow of the source list: dropping the
+        // source may run user code (e.g. a future owning an `Async` adapter) that re-enters the loop.
+        let taken = match self.inner.sources.borrow_mut().get_mut(token.inner) {
+            Ok(&mut SourceEntry {
+                token: entry_token,
+                ref mut source,
+            }) => source.take().map(|source| (entry_token, source)),
+            Err(_) => None,
+        };
+        if let Some((entry_token, source)) = taken {
+            trace!(source = entry_token.get_id(), "Removing source");
+            if let Err(e) = source.unregister(
+                &mut self.inner.poll.borrow_mut(),
+                &mut self
+                    .inner
+                    .sources_with_additional_lifecycle_events
+                    .borrow_mut(),
+                token,
+            ) {
+                warn!("Failed to unregister source from the polling system: {e:?}");
             }
         }
     }
